@@ -132,7 +132,7 @@ def G(name, src, entry, enforce=None, replace=None, link=None, defs=None, loops=
       unwind=None, unwindset=None, flags=None, tier="quick", bounded=None, timeout=300,
       mem=12, functions=None, finding=None, replay="native", solver=None, noreach=False,
       stubs=None, object_bits=None, note=None, selftest=None, only_finding=None,
-      enforce_none=False, genbody=None):
+      enforce_none=False, genbody=None, cflags=None, dfcc=True):
     enforce = enforce or []
     if isinstance(enforce, str):
         enforce = [enforce]
@@ -143,7 +143,7 @@ def G(name, src, entry, enforce=None, replace=None, link=None, defs=None, loops=
                  finding=finding, replay=replay, solver=solver, noreach=noreach,
                  stubs=stubs or [], object_bits=object_bits, note=note,
                  selftest=selftest, only_finding=only_finding, enforce_none=enforce_none,
-                 genbody=genbody)
+                 genbody=genbody, cflags=cflags or [], dfcc=dfcc)
 
 
 def load_checks(pid):
@@ -169,17 +169,28 @@ def cc_args(gen, extra_defs):
 def build_group(g, gen, wd, extra_defs=()):
     """returns path of instrumented goto binary; raises Undecided"""
     os.makedirs(wd, exist_ok=True)
-    srcs = [os.path.join(VERIF, g.src)]
-    srcs += [os.path.join(REPO, f) for f in g.link]
-    srcs += [os.path.join(VERIF, f) for f in g.stubs]
     a = os.path.join(wd, "a.gb")
     b = os.path.join(wd, "b.gb")
-    cmd = ["goto-cc", "--function", g.entry, "-o", a] + cc_args(gen, list(g.defs) + list(extra_defs)) + srcs
-    r = run(cmd, timeout=600, mem_gb=8)
+    cflags = [x.replace("$VERIF", VERIF) for x in g.get("cflags", [])]
+    base = cc_args(gen, list(g.defs) + list(extra_defs))
+    objs = []
+    # harness (+ stub files): loop-contract anchors active (-DASL_VERIF)
+    units = [(os.path.join(VERIF, g.src), True)] + [(os.path.join(VERIF, f), True) for f in g.stubs] + \
+            [(os.path.join(REPO, f), False) for f in g.link]
+    for k, (src, guard) in enumerate(units):
+        o = os.path.join(wd, "u%d.o" % k)
+        args = [x for x in base if guard or x != "-D" + GUARD]
+        r = run(["goto-cc", "-c", "-o", o] + args + cflags + [src], timeout=600, mem_gb=8)
+        if r["rc"] != 0:
+            txt = r["err"] + r["out"]
+            errs = [l for l in txt.splitlines() if "error" in l.lower()]
+            raise Undecided("goto-cc failed for %s (%s): %s" % (g.name, os.path.basename(src), " | ".join(errs[:4]) or txt[-1500:]))
+        objs.append(o)
+    r = run(["goto-cc", "--function", g.entry, "-o", a] + objs, timeout=600, mem_gb=8)
     if r["rc"] != 0:
         txt = r["err"] + r["out"]
         errs = [l for l in txt.splitlines() if "error" in l.lower()]
-        raise Undecided("goto-cc failed for %s: %s" % (g.name, " | ".join(errs[:4]) or txt[-1500:]))
+        raise Undecided("goto-cc link failed for %s: %s" % (g.name, " | ".join(errs[:4]) or txt[-1500:]))
     if g.genbody:
         # havoc-with-frame bodies for callees that live in other translation units:
         # genbody = (regex of function names, options), e.g. "havoc,globals:(ErrorCount|Repass)"
@@ -191,7 +202,17 @@ def build_group(g, gen, wd, extra_defs=()):
             if r["rc"] != 0:
                 raise Undecided("goto-instrument --generate-function-body failed for %s: %s" % (g.name, (r["err"] + r["out"])[-1500:]))
             a = a2
-    cmd = ["goto-instrument", "--no-malloc-may-fail", "--dfcc", g.entry]
+    if g.get("dfcc", True):
+        cmd = ["goto-instrument", "--no-malloc-may-fail", "--dfcc", g.entry]
+    else:
+        # legacy (non-DFCC) contract instrumentation: no write-set library, far smaller formulas;
+        # used where DFCC's per-assignment checks made an obligation intractable
+        a1 = os.path.join(wd, "a_lib.gb")
+        r = run(["goto-instrument", "--no-malloc-may-fail", "--add-library", a, a1], timeout=600, mem_gb=12)
+        if r["rc"] != 0:
+            raise Undecided("goto-instrument --add-library failed for %s: %s" % (g.name, (r["err"] + r["out"])[-800:]))
+        a = a1
+        cmd = ["goto-instrument", "--no-malloc-may-fail"]
     for f in g.enforce:
         cmd += ["--enforce-contract", f]
     for f in g.replace:
@@ -314,7 +335,8 @@ def verify_group(g, gen, scratch, extra_defs=(), tag=""):
         res.update(status="undecided",
                    detail="cbmc gave no result (rc=%s): %s" % (r["rc"], (r["err"][-1500:] + " | ".join(msgs[-6:]))))
         return res
-    loop_instr = len(re.findall(r"loop_invariant_(?:base|step)", json.dumps([x.get("property") for x in results])))
+    loop_instr = len(re.findall(r"loop_invariant_(?:base|step)", json.dumps([x.get("property") for x in results]))) + \
+                 len([x for x in results if re.search(r"loop invariant", x.get("description", ""), re.I)])
     for p in results:
         pname = p.get("property", "")
         descr = p.get("description", "")
@@ -424,14 +446,22 @@ def native_replay(g, gen, scratch, trace, extra_defs=()):
     inp = os.path.join(wd, "inputs.txt")
     n = write_replay_inputs(trace, inp)
     exe = os.path.join(wd, "replay")
-    srcs = [os.path.join(VERIF, g.src)] + [os.path.join(REPO, f) for f in g.link] + \
-           [os.path.join(VERIF, f) for f in g.stubs] + [os.path.join(VERIF, "replay", "vnd_runtime.c")]
-    cmd = ["gcc", "-O0", "-g", "-w", "-fsanitize=address,undefined", "-fno-sanitize-recover=undefined",
-           "-fno-sanitize=shift,signed-integer-overflow,float-cast-overflow",
-           "-DVERIF_NATIVE", "-DVERIF_ENTRY=" + g.entry,
-           "-I" + os.path.join(VERIF, "include"), "-I" + VERIF, "-I" + REPO, "-I" + gen, "-D" + GUARD,
-           '-DLIBDIR="/usr/local/lib/asl"', "-DVERIF_REPO=\"%s\"" % REPO] + list(g.defs) + list(extra_defs) + \
-          ["-o", exe] + srcs + ["-lm"]
+    cflags = [x.replace("$VERIF", VERIF) for x in g.get("cflags", [])]
+    common = ["gcc", "-O0", "-g", "-w", "-fsanitize=address,undefined", "-fno-sanitize-recover=undefined",
+              "-fno-sanitize=shift,signed-integer-overflow,float-cast-overflow",
+              "-DVERIF_NATIVE", "-DVERIF_ENTRY=" + g.entry,
+              "-I" + os.path.join(VERIF, "include"), "-I" + VERIF, "-I" + REPO, "-I" + gen,
+              '-DLIBDIR="/usr/local/lib/asl"', "-DVERIF_REPO=\"%s\"" % REPO] + list(g.defs) + list(extra_defs) + cflags
+    units = [(os.path.join(VERIF, g.src), True)] + [(os.path.join(VERIF, f), True) for f in g.stubs] + \
+            [(os.path.join(VERIF, "replay", "vnd_runtime.c"), True)] + [(os.path.join(REPO, f), False) for f in g.link]
+    objs = []
+    for k, (src, guard) in enumerate(units):
+        o = os.path.join(wd, "n%d.o" % k)
+        r = run(common + (["-D" + GUARD] if guard else []) + ["-c", "-o", o, src], timeout=300)
+        if r["rc"] != 0:
+            return None, "native build of the harness failed (%s):\n%s" % (os.path.basename(src), r["err"][-2500:])
+        objs.append(o)
+    cmd = ["gcc", "-fsanitize=address,undefined", "-o", exe] + objs + ["-lm"]
     r = run(cmd, timeout=300)
     for _ in range(4):
         if r["rc"] == 0:
